@@ -65,6 +65,14 @@ def extras(etl):
         B('cat(header)', lambda a, b: etl.cat(a, b, header=['v', 'k', 'z'])),
         B('cat(missing)', lambda a, b: etl.cat(a, b, missing=0)),
         B('annex(missing)', lambda a, b: etl.annex(a, b, missing=0)),
+        # user functions that keep what they are handed: what was delivered must not change afterwards
+        U('pivot(aggfun keeps its argument)', lambda a: etl.pivot(etl.addfield(a, 'w', 1), 'k', 'v', 'w', lambda vs: vs)),
+        U('aggregate(keeps the group)', lambda a: etl.aggregate(a, 'k', lambda g: g if isinstance(g, list) else list(g), 'v')),
+        U('rowreduce(keeps the rows)', lambda a: etl.rowreduce(a, 'k', lambda k, rows: [k, list(rows)], header=['k', 'rows'])),
+        U('fold(keeps the accumulator)', lambda a: etl.fold(a, 'k', lambda acc, v: acc + [v], 'v', []) if True else None),
+        U('stack(trim=False)', lambda a: etl.stack(a, trim=False)),
+        B('stack(trim=False, two tables)', lambda a, b: etl.stack(a, b, trim=False, missing='M')),
+        U('stack(pad=False)', lambda a: etl.stack(a, pad=False)),
         # other numbers of operands than two: one table squared up by cat/stack, three and four tables side by side
         U('cat(one table)', lambda a: etl.cat(a)),
         U('cat(one table, missing)', lambda a: etl.cat(a, missing='NA')),
